@@ -7,6 +7,14 @@ TB_COMMON = [
 ]
 
 HARNESSES = {
+    "gme": {
+        "module": "grpcgcp", "pkg": ".", "test": "TestVerifGME",
+        "files": ["harness/grpcgcp/zz_verif_gme_test.go", "harness/grpcgcp/zz_verif_pool_test.go"], "rewrite": "vclock",
+        "extra_files": {"multiendpoint/zz_verif_dump.go": "harness/multiendpoint/zz_verif_dump.go"},
+        "corpus_glob": "*.ops", "corpus_dirs": ["C15", "C16"],
+        "episode_start": r"^gme new",
+        "tiers": {"quick": {"episodes": 120}, "thorough": {"episodes": 3000, "seeds": 4}},
+    },
     "st": {
         "module": "grpcgcp", "pkg": ".", "test": "TestVerifStream",
         "files": ["harness/grpcgcp/zz_verif_st_test.go", "harness/grpcgcp/zz_verif_pool_test.go"], "rewrite": "vclock",
@@ -117,7 +125,24 @@ ST_TB = TB_COMMON + [
     "one sender thread (gRPC forbids concurrent SendMsg on a stream), up to three receiver threads",
 ]
 
+GME_TB = TB_COMMON + [
+    "the MultiEndpoints inside GCPMultiEndpoint run without recovery timeout and switching delay in the harness (their clock lives in another package and cannot be virtualised); C13/C14 cover the timers",
+    "pools are real *grpc.ClientConn whose connection attempts never finish; availability changes are delivered by calling monitoredConn.notify in-package (what the monitor goroutine does); how long a real monitor takes to see a connectivity change ('within bounded time') is not modelled",
+    "Go map iteration order of the final status update of UpdateMultiEndpoints is an input of the model: the driver accepts the implementation's state if some order explains it; theorems hold for every order",
+    "open connections are counted via GetState() != Shutdown on every connection the DialFunc returned; monitors are counted in the goroutine profile",
+]
+
+def gme_thms(names):
+    return [("GcpVerif.Proofs.GME", "GcpVerif.GME." + n) for n in names]
+
 PROPS = {
+    "C15": {"harnesses": ["gme"], "lake_targets": ["GcpVerif"],
+            "theorems": gme_thms(["rpc_routes_current", "pickME_known", "pickME_unknown", "pickME_no_name", "pools_exact_after_update", "only_missing_dialled"]),
+            "leanchecker": ["GcpVerif.Proofs.GME"], "trusted_base": GME_TB,
+            "assumptions": ["'within bounded time' is observed only through the monitor's notification being delivered by the harness"]},
+    "C16": {"harnesses": ["gme"], "lake_targets": ["GcpVerif"],
+            "theorems": gme_thms(["failed_update_is_identity", "invalid_options_rejected", "dial_failure_rejected", "close_releases_all", "rpc_routes_current"]),
+            "leanchecker": ["GcpVerif.Proofs.GME"], "trusted_base": GME_TB, "assumptions": []},
     "C12": {"harnesses": ["st"], "lake_targets": ["GcpVerif"],
             "theorems": [("GcpVerif.Proofs.Stream", "GcpVerif.Stream." + n) for n in
                          ["run_inv", "create_at_most_once", "recv_progress", "delegation_after_creation",
